@@ -12,4 +12,18 @@ class VtLong(callbacks.Plugin):
         irc.reply(VtLong.TEXT, **VtLong.KW)
     vtlong = wrap(vtlong)
 
+    def vterr(self, irc, msg, args):
+        """takes no arguments
+
+        Answers the stored text as an error."""
+        irc.error(VtLong.TEXT)
+    vterr = wrap(vterr)
+
+    def vtarg(self, irc, msg, args, text):
+        """<text>
+
+        Replies with its argument (used with a nested command: vtarg [vtlong])."""
+        irc.reply(text, **VtLong.KW)
+    vtarg = wrap(vtarg, ['text'])
+
 Class = VtLong
